@@ -12,7 +12,7 @@ SHARDS = {"quick": 16, "thorough": 16}
 WATCHDOG = {"quick": 1200, "thorough": 7200}
 CASES = {"quick": 60, "thorough": 500}   # detector cases per shard (grid is split separately)
 FLOORS = {
-    "quick": {"distinct_nontrivial": 630, "grid_points": 600, "detector_fits": 380,
+    "quick": {"plugged_scorer[GaussianCovCost, p>=2]": 25, "update_chunks_overlapping_the_stored_tail": 274, "distinct_nontrivial": 630, "grid_points": 600, "detector_fits": 380,
               "tuned_fits": 100, "pelt_ladders": 190, "K6_evaluations": 4300},
     "thorough": {"distinct_nontrivial": 3000, "grid_points": 8000, "detector_fits": 3000},
 }
